@@ -411,11 +411,17 @@ def toolbox_ops(inp):
                  ([5, 3, 9, 1, 12, 7, 2, 30], [3, 1, 7, 9, 2])]
 
     def results(net):
-        pp.pipeflow(net, mode="sequential")
+        # an exception of the code under test is an outcome to be compared, not a failure of this stand-in
+        try:
+            pp.pipeflow(net, mode="sequential")
+        except Exception as e:  # noqa
+            return {"error": "%s: %s" % (type(e).__name__, str(e)[:120])}
         return {t: net["res_" + t].sort_index().values.astype(float) for t in ("junction", "pipe", "valve", "sink", "press_control",
                                                                                "heat_exchanger", "ext_grid")}
 
     def same(a, b):
+        if "error" in a or "error" in b:
+            return False
         return all(a[t].shape == b[t].shape and np.allclose(a[t], b[t], rtol=1e-7, atol=1e-9, equal_nan=True) for t in a)
     for jl, pl in labelings:
         base = _full_net(pp, jl, pl)
@@ -1281,7 +1287,10 @@ def section_equivalence(inp):
         return net, last
 
     ref, last = series()
-    pp.pipeflow(ref, mode="sequential")
+    try:
+        pp.pipeflow(ref, mode="sequential")
+    except Exception as e:  # noqa
+        return {"ok": False, "cases": 1, "witness": {"observed": "the pipes-in-series reference network: %s: %s" % (type(e).__name__, str(e)[:160])}}
     for labels in itertools.permutations([0, 1, 2]):
         for use_numba in (False, True):
             for reverse in ((), (1,), (0, 2)):
